@@ -731,6 +731,98 @@ func main() {
 		}
 	}
 
+	// ---- near ties: every consumer of the order on pairs that only an EXACT comparison separates
+	// (adjacent integers beyond 2^53 and at the int64 limits, an integer next to the float it
+	// rounds to) and on pairs that are equal in different carriers
+	{
+		near := ctx.NewOracle("near-ties", "pairs (a, b) of numbers that differ by one unit beyond 2^53 / at ±2^63 / between an integer and the nearest float, and equal values in different carriers (also nested in arrays/objects), through every consumer of the order — `[a] - [b]`, unique, group_by, index/rindex/indices, inside/contains, IN, any(==), sort, min/max, bsearch, == on wrappers — each compared with what gojq.Compare(a, b) demands; distinct = distinct (pair, carriers)")
+		big := func(s string) *big.Int { z, _ := new(big.Int).SetString(s, 10); return z }
+		var nums []any
+		for _, s := range []string{"9007199254740992", "9007199254740993", "9007199254740994", "-9007199254740993", "-9007199254740992", "9223372036854775806", "9223372036854775807", "9223372036854775808", "9223372036854775809",
+			"-9223372036854775807", "-9223372036854775808", "-9223372036854775809", "100000000000000000", "100000000000000001", "18014398509481984", "18014398509481985", "4611686018427387904", "4611686018427387905", "0", "1", "-1"} {
+			nums = append(nums, common.NormInt(big(s)))
+		}
+		nums = append(nums, 9007199254740992.0, 9007199254740994.0, 9223372036854775808.0, -9223372036854775808.0, 1e17, 1.0, 0.0, math.Copysign(0, -1), 4611686018427387904.0)
+		qs := map[string]*gojq.Code{}
+		for name, src := range map[string]string{
+			"sub": "[$a] - [$b] | length", "sub2": "[$b, $a, $b] - [$b] | length", "unique": "[$a, $b] | unique | length", "group_by": "[$a, $b] | group_by(.) | length", "index": "[$a] | index($b) != null", "rindex": "[$a, $a] | rindex($b) != null",
+			"indices": "[$a, $b, $a] | indices($b) | length", "indices-arr": "[$a, $b] | indices([$b]) | length", "inside": "[$a] | inside([$b])", "contains": "[[$a]] | contains([[$b]])", "IN": "$a | IN($b)", "any": "[$b] | any(. == $a)", "eq-wrapped": "[{k: [$a]}] == [{k: [$b]}]",
+			"sort": "[$a, $b] | sort == [$a, $b]", "min": "[$a, $b] | min == $a", "max": "[$a, $b] | max == $b", "bsearch": "[$b] | bsearch($a)", "unique_by": "[[$a, 1], [$b, 2]] | unique_by(.[0]) | length", "sub-nested": "[[$a]] - [[$b]] | length", "sub-obj": "[{k: $a}] - [{k: $b}] | length",
+			"lt-wrapped": "[$a] < [$b]", "sort_by": "[{k: $a, i: 0}, {k: $b, i: 1}] | sort_by(.k) | map(.i)", "has-key-order": "{($a | tostring): 1} | length",
+		} {
+			qs[name] = compile(src, "$a", "$b")
+		}
+		want := func(name string, c int) string {
+			b2 := func(b bool) string {
+				if b {
+					return "ok t"
+				}
+				return "ok f"
+			}
+			n2 := func(eq bool, a, b int) string {
+				if eq {
+					return fmt.Sprintf("ok i%d", a)
+				}
+				return fmt.Sprintf("ok i%d", b)
+			}
+			switch name {
+			case "sub", "sub-nested", "sub-obj":
+				return n2(c == 0, 0, 1)
+			case "sub2":
+				return n2(c == 0, 0, 1)
+			case "unique", "group_by", "unique_by":
+				return n2(c == 0, 1, 2)
+			case "index", "rindex", "inside", "contains", "IN", "any", "eq-wrapped":
+				return b2(c == 0)
+			case "indices":
+				return n2(c == 0, 3, 1)
+			case "indices-arr":
+				return n2(c == 0, 2, 1)
+			case "sort", "min", "max":
+				return b2(c <= 0)
+			case "lt-wrapped":
+				return b2(c < 0)
+			case "bsearch":
+				if c == 0 {
+					return "ok i0"
+				} else if c < 0 {
+					return "ok i-1"
+				}
+				return "ok i-2"
+			case "sort_by":
+				if c <= 0 {
+					return "ok [ i0 i1 ]"
+				}
+				return "ok [ i1 i0 ]"
+			}
+			return ""
+		}
+		seenNear := map[string]bool{}
+		for _, a := range nums {
+			for _, b := range nums {
+				c := gojq.Compare(a, b)
+				for _, ca := range common.Carriers(a) {
+					for _, cb := range common.Carriers(b) {
+						seenNear[common.Canon(a)+"|"+common.Canon(b)+fmt.Sprintf("%T%T", ca, cb)] = true
+						for name, code := range qs {
+							w := want(name, c)
+							if w == "" {
+								continue
+							}
+							got, _ := run1(code, nil, ca, cb)
+							near.Cases++
+							if got != w {
+								ctx.Violate("near-tie:"+name+":"+common.Canon(a)+":"+common.Canon(b), fmt.Sprintf("%s with $a=%v (%T) $b=%v (%T) gives %s, gojq.Compare($a,$b)=%d demands %s", name, a, ca, b, cb, got, c, w),
+									map[string]any{"consumer": name, "a": fmt.Sprint(a), "b": fmt.Sprint(b), "carrier_a": fmt.Sprintf("%T", ca), "carrier_b": fmt.Sprintf("%T", cb), "observed": got, "expected": w})
+							}
+						}
+					}
+				}
+			}
+		}
+		near.Distinct = len(seenNear)
+	}
+
 	// ---- keys, iteration order, to_entries, Marshal key order on objects
 	keyOr := ctx.NewOracle("key-order", "on objects: `keys` = sort.Strings of the keys (bytewise = the order of strings), `[.[]]`, `to_entries` and the member order printed by gojq.Marshal all follow it, and gojq.Compare on the key strings is strictly increasing along it; distinct = distinct objects")
 	keySeen := map[string]bool{}
